@@ -685,7 +685,7 @@ func (g *Gen) file(pkg string, imports []string) string {
 	for _, i := range imports {
 		fmt.Fprintf(&sb, "\t%s\n", i)
 	}
-	sb.WriteString(")\n\nvar _ = time.Now\nvar _ = context.Background\nvar _ attr.Type\nvar _ = types.StringType\nvar _ = vrt.Bool\nvar _ diag.Diagnostics\nvar _ tfsdk.Attribute\n\n")
+	sb.WriteString(")\n\nvar _ = time.Now\nvar _ = context.Background\nvar _ attr.Type\nvar _ = types.StringType\nvar _ = vrt.Bool\nvar _ diag.Diagnostics\nvar _ tfsdk.Attribute\nvar _ = strconv.Itoa\n\n")
 	sb.WriteString(tfOptDecl)
 	sb.WriteString(g.sb.String())
 	sort.Strings(g.hs)
